@@ -682,3 +682,35 @@ def run(ctx):
                 detail = "id = %s; assigned before the push of the same state: %s" % (describe(ida[0]["r"]), before and pushed_same)
         ctx.ob("R04.5", site_key(gs, "state id = states.len() + 1, then pushed"), ok, gs.where, detail)
     ctx.guard("R04.5", r5)
+
+    # ---------------------------------------------------------------- R04.6 forward references
+    ctx.rule("R04.6", "forward references: what a declaration contributes to its state through the parameters of get_or_create_state (the state kind) "
+                      "is applied both when the entry is created and when an entry created earlier by a reference (target=, initial=) is found")
+
+    def r6():
+        gs = F.fn(RS + "get_or_create_state")
+        extra = [p for p in gs.params if p.get("k") == "bind" and p["n"] not in ("self", "name")]
+        ctx.floor("R04.6", "declaration parameters of get_or_create_state besides the name", len(extra), 1)
+        lookups = [m for m in gs.nodes("match") if any(wire_arm(a) in ("None", "Some") for a in m["arms"])]
+        ctx.exact("R04.6", "name lookups in get_or_create_state", len(lookups), 1)
+        m = lookups[0]
+        for p in extra:
+            for a in m["arms"]:
+                kind = wire_arm(a)
+                if kind not in ("None", "Some"):
+                    continue
+                used = False
+                for x in hirq.walk(a["body"]):
+                    if x.get("k") == "assign":
+                        if hirq.mentions_local(x["r"], p["b"]) or any(pol is not None and hirq.mentions_local(g, p["b"]) for g, pol in hirq.guard_atoms(gs, x)):
+                            used = True
+                ctx.ob("R04.6", site_key(gs, "`%s` applied on the %s arm" % (p["n"], "create" if kind == "None" else "found-earlier")), used, gs.where,
+                       "the %s arm %s a state field from `%s`" % (kind, "sets" if used else "never sets", p["n"]))
+    ctx.guard("R04.6", r6)
+
+
+def wire_arm(a):
+    p = a["pat"]
+    if p.get("k") in ("pts", "pstruct", "ppath"):
+        return str(p["r"].get("p", "?")).split("::")[-1]
+    return "_"
